@@ -23,9 +23,9 @@ class AlgorithmEnumeration:
         BioConsert,
         BioCo,
         KwikSortRandom,
+        PickAPerm,
         BordaCount,
         CopelandMethod,
-        PickAPerm,
     ]
 
 
